@@ -15,7 +15,7 @@ import itertools
 import random
 from fractions import Fraction as Fr
 
-from common import fr, impl, impl_site
+from common import close_floats, fr, impl, impl_site
 from dsl import N, V, grid_points, params_impl
 from gen import nontrivial, signature
 from pipeline import ImplFns, compare_value_arrays, explicit_case, materialise_case, model_layout, model_solve
@@ -166,7 +166,7 @@ def run_case(case):
                 if key in d2[t]:
                     evals += 1
                     y = d2[t][key]
-                    if not (x == y or (x != x and y != y)):
+                    if not (x == y or (x != x and y != y) or close_floats([x], [y])):
                         vs.append({"clause": "the value of every state that remains in the space is unchanged", "detail": f"{kind}: period {t} state {sorted((s, str(v)) for s, v in key)}: base {fr(x)}, rewritten {fr(y)}"})
                         break
             if vs:
